@@ -121,6 +121,7 @@ fn write_replay(prop: &str, sc: &Scenario, v: &Violation) -> String {
 pub fn finish(prop: &str, tier: &str, seed: u64, scs: &[Scenario], results: Vec<ScenarioResult>, mut machinery: Vec<String>, wall: f64) -> i32 {
     let known = load_known();
     let mut executions = 0u64;
+    let mut sub_evals = 0u64;
     let mut states = 0u64;
     let mut transitions = 0u64;
     let mut sigs = 0usize;
@@ -141,6 +142,7 @@ pub fn finish(prop: &str, tier: &str, seed: u64, scs: &[Scenario], results: Vec<
     for r in results.iter() {
         let sc = scs.iter().find(|s| s.name == r.name).unwrap();
         executions += r.executions;
+        sub_evals += r.sub_evals;
         states += r.states;
         transitions += r.transitions;
         sigs += r.sigs.len();
@@ -163,7 +165,7 @@ pub fn finish(prop: &str, tier: &str, seed: u64, scs: &[Scenario], results: Vec<
             "bound_requested": r.bound_requested, "bound_completed": r.bound_completed, "capped": r.capped,
             "distinct_outcomes": r.outcomes.len(), "distinct_conflict_signatures": r.sigs.len(),
             "conflict_pairs_both_orders": r.both_orders(), "active_threads": r.threads_active_max,
-            "recycled_allocations_max": r.reused_max,
+            "recycled_allocations_max": r.reused_max, "sequential_cases": r.sub_evals,
             "statuses": r.statuses, "violations": r.violation_count, "wall_s": (r.wall * 100.0).round() / 100.0,
         }));
         if samples.len() < 6 {
@@ -213,7 +215,8 @@ pub fn finish(prop: &str, tier: &str, seed: u64, scs: &[Scenario], results: Vec<
             "states": states.max(1),
             "transitions": transitions.max(1),
             "traces_validated_against_impl": executions,
-            "evaluations": executions,
+            "evaluations": executions + sub_evals,
+            "sequential_cases_inside_executions": sub_evals,
             "distinct_nontrivial": sigs,
             "rule": rule,
             "samples": samples,
